@@ -144,6 +144,7 @@ type Server struct {
 	DeafHanging   int // list calls in flight that ignore their context
 	Unstructured  bool // objects and lists in the dynamic client's representation (*unstructured.Unstructured / UnstructuredList)
 	EmptyListRV   bool // lists carry no resourceVersion of their own
+	StrayContinue bool // complete list replies carry a continue token nobody asked for
 	errFlavor     int
 	stopDrawn, oneShotStop bool
 	// HeadFrame: every watch stream opens with a non-object frame (a server or
@@ -213,6 +214,27 @@ func (s *Server) Apply(o Spec) Spec {
 		s.appendLog(watch.Added, o)
 	}
 	detsim.Note("server[%s] apply %s", s.Kind, o.ID())
+	return o
+}
+
+// ApplyFixture loads an object the way test fixtures and restored snapshots
+// look: no uid, and the same resourceVersion as everything else loaded with it
+// (the version counter does not move).
+func (s *Server) ApplyFixture(o Spec) Spec {
+	if s.rv == 0 {
+		s.rv = 1
+	}
+	o = o.Clone()
+	o.RV = strconv.Itoa(s.rv)
+	o.UID = ""
+	_, existed := s.objs[o.Key()]
+	s.objs[o.Key()] = o
+	if existed {
+		s.appendLog(watch.Modified, o)
+	} else {
+		s.appendLog(watch.Added, o)
+	}
+	detsim.Note("server[%s] fixture %s", s.Kind, o.ID())
 	return o
 }
 
@@ -534,7 +556,14 @@ func (s *Server) List(ctx context.Context, opts metav1.ListOptions) (runtime.Obj
 		}
 		return l, nil
 	}
-	return BuildList(s.Kind, rv, snap), nil
+	l := BuildList(s.Kind, rv, snap)
+	if s.StrayContinue {
+		// a complete reply that carries a continue token nobody asked for (a
+		// paginating proxy in front of the server that had to merge pages itself)
+		detsim.Count("probe:list-with-a-stray-continue-token")
+		l.(*metav1.List).Continue = "proxy-merged-pages"
+	}
+	return l, nil
 }
 
 // object builds the API object of a frame or list element.  With Reuse the
